@@ -100,6 +100,7 @@ KNOWN = {
     # scala.rs unsigned_integer_used looks one level below the top of each type only (and not inside Array/Slice):
     # `Option<Option<u32>>`, `Vec<Vec<u8>>`, `[u8; 4]` ... use UByte/UShort/UInt/ULong without the aliases being printed.
     'scala_unsigned_aliases_used_but_not_defined': 'Scala uses UByte/UShort/UInt/ULong without printing their aliases (shallow scan)',
+    # (repaired in /repo: write_field registers the unwrapped type; the entry only classifies the unrepaired tree)
     # python.rs write_field: for a has_default field whose type is datetime/bytes the set of translation types receives
     # "Optional[datetime]" instead of "datetime": json_translation_for_type finds nothing, the helper functions are not
     # printed although BeforeValidator(parse_rfc3339) ... refers to them.
@@ -411,6 +412,14 @@ class Cmp:
                 continue
             nm = d['name']
             gens = a['generics'] if lang != 'go' and not inline else []
+            if lang == 'python' and d.get('form') != 'subscript':
+                # `N = List[T]` (python.rs write_type_alias since its repair): the parameters are spelled only in the target;
+                # the extractor reports the declared TypeVars the target mentions, in order of first occurrence
+                seen = []
+                for x in IR.type_ids(a['ty']):
+                    if x in a['generics'] and x not in seen:
+                        seen.append(x)
+                gens = seen
             self.eq('generics', d['generics'], gens, f'alias {nm} generics')
             self.docs(f'alias {nm}', d['docs'], a.get('comments', []))
             self.eq('alias_inline', bool(d.get('inline')), inline, f'alias {nm} inline value class')
